@@ -22,7 +22,15 @@ def seeds_table():
         m = json.load(open(d))
         sid = os.path.basename(os.path.dirname(d))
         res = m.get("checks_result")
-        note = m.get("summary") or re.sub(r"\s+", " ", m.get("needs_to_manifest", ""))[:160]
+        note = m.get("summary")
+        if not note:
+            lines = [l.strip() for l in m.get("needs_to_manifest", "").splitlines() if l.strip()]
+            head = lines[0].lstrip("# ").strip() if lines else ""
+            # drop a leading "Cxx / seed k --" label
+            head = re.sub(r"^(Seed|seed|C\d\d)[^a-zA-Z`]*(seed\s*\d+)?\s*[-:—–]*\s*", "", head)
+            if len(head) < 25 and len(lines) > 1:
+                head = (head + " " + lines[1].lstrip("# ")).strip()
+            note = re.sub(r"\s+", " ", head)[:170].replace("|", "/")
         if res is None:
             det, first = "(not run yet)", ""
         elif not res:
